@@ -54,6 +54,7 @@ UNIT_HARNESS = {
     # derive users of hooks/syncx_blocks.rs (the file is prepended to the harness: same module, private fields visible)
     'syncx': ('syncx_harness.rs', 'syncx'),
     'sigmf': ('io_harness.rs', 'sigmf'),
+    'kernels': ('kernels_harness.rs', 'kernels'),
     'io': ('io_harness.rs', 'il2p,s2pdu,wpcr'),
 }
 
